@@ -68,6 +68,11 @@ class RouterDomain(EvDomain):
         return None
 
 
+def _strip_ptr(t):
+    t = (t or '').rstrip()
+    return t[:-1].rstrip() if t.endswith('*') else t
+
+
 def node_fns(facts, base):
     return [f for f in facts.fns if f.gname == f'{NODE}::{base}' and not f.d.get('lambda')]
 
@@ -100,7 +105,7 @@ class RouterAnalysis:
                              '' if same else f'inside {f.name} the recursion resolves to {n.callee}: the pack is re-deduced from lvalues, the leaf reinterprets Subject{pack} as Subject{(n.targs or ["?"])[0]} (observers receive garbage / the wrong type)',
                              key='RT.1|recursion')
                 if n.k == 'cast' and n.castkind == 'CXXReinterpretCastExpr':
-                    to = (n.to or '').replace(' *', '').replace('*', '').strip()
+                    to = _strip_ptr(n.to)
                     ok = to == want_subject
                     self.add('RT.1', ok, f'{short}: the erased subject is cast back to Subject{pack}', n.shortloc(), '' if ok else f'reinterpret_cast to {n.to} inside notify{pack}', key='RT.1|cast')
                 if n.k == 'call' and strip_targs(n.calleeq or '') == 'tulz::Subject::notify':
@@ -131,8 +136,8 @@ class RouterAnalysis:
             pack = f.d.get('targs', ['<?>'])[0]
             want = 'tulz::Subject' + pack
             for n in f.nodes():
-                if n.k == 'cast' and n.castkind == 'CXXReinterpretCastExpr' and 'Subject<' in (n.to or '') and (n.to or '').replace(' *', '').strip() != 'tulz::Subject<>':
-                    ok = (n.to or '').replace(' *', '').strip() == want
+                if n.k == 'cast' and n.castkind == 'CXXReinterpretCastExpr' and 'Subject<' in (n.to or '') and _strip_ptr(n.to) != 'tulz::Subject<>':
+                    ok = _strip_ptr(n.to) == want
                     self.add('RT.1', ok, f'{f.name[:70]}: subscribes on a Subject{pack}', n.shortloc(), '' if ok else f'cast to {n.to}', key='RT.1|subscribe-cast')
                 if n.k == 'call' and strip_targs(n.calleeq or '') == 'tulz::Subject::subscribe':
                     ok = (n.mclassfull or '') == want
